@@ -6,6 +6,7 @@ import (
 	"context"
 	"errors"
 	"fmt"
+	"github.com/pingcap/kvproto/pkg/kvrpcpb"
 	"runtime"
 	"strings"
 	"sync"
@@ -65,6 +66,10 @@ type Fault struct {
 	// Deliver (kinds that hand an answer to the client): runs in its own goroutine, no lock held, after the request was
 	// executed and recorded and BEFORE its answer is handed to the client (e.g. a clock step at the delivery of a status check).
 	Deliver func()
+	// LiftLockErr (kinds that hand an answer to the client): a BatchGet answer that reports a met lock as a per-pair error is
+	// handed over with that error in the response-level `Error` field and no pairs — TiKV may answer either way.  The
+	// `rpc` line keeps the store's own answer; a comment line `lifted <id>` follows it.
+	LiftLockErr bool
 
 	at      int // absolute index
 	fired   bool
@@ -507,6 +512,20 @@ func (g *Gate) execute(id int, p *pendingRPC, f *Fault) (rpcResult, bool) {
 	}
 	if executed {
 		w.emitLocked("rpc " + line)
+		if f != nil && f.LiftLockErr {
+			if r, ok := resp.Resp.(*kvrpcpb.BatchGetResponse); ok && r.Error == nil {
+				for _, p := range r.Pairs {
+					if p.Error != nil && p.Error.Locked != nil {
+						resp = &tikvrpc.Response{Resp: &kvrpcpb.BatchGetResponse{Error: p.Error}}
+						if !w.closed {
+							w.rec.run.Comment(fmt.Sprintf("lifted %d: the lock error is handed over at the response level", id))
+							w.rec.run.Count("fault:lifted-lock-error")
+						}
+						break
+					}
+				}
+			}
+		}
 	} else {
 		if f != nil && f.Kind == DropAfter {
 			// the store refused the request (region error) and that answer is lost too: for the client this is a request
